@@ -601,6 +601,13 @@ def c09(rec):
         e1 = frozenset(e1)
         judge("split", lambda: prod(partial_sum_product(
             plus, times, partial_sum_product(plus, times, factors, e1, plates, **kw), elim - e1, plates, **kw)))
+    # the same call with EVERY eliminated plate listed in plate_to_scale, scale 1 included: a scale of
+    # one is an exponent of one (found by a seeded fault that added the scales of two nested plates)
+    full = {p: int(rec.get("scales", {}).get(p, 1)) for p in sorted(plates & elim)}
+    if full and full != scales:
+        judge("sum_product_all_plates_scaled", lambda: sum_product(plus, times, factors, elim, plates, plate_to_scale=full))
+        judge("partial_all_plates_scaled",
+              lambda: prod(partial_sum_product(plus, times, factors, elim, plates, plate_to_scale=full)))
     if scales:
         return out     # the modified / dynamic variants and einsum take no plate scales
     p2s = {p: frozenset() for p in plates & elim}
@@ -1060,6 +1067,54 @@ def c13(rec):
                         out.append(V("integrate_var:lazy", st="declined_lazy"))
                 except Exception as e:  # noqa
                     out.append(V("integrate_var:" + type(e).__name__, st="declined_error"))
+    # more Integrate forms with closed forms from TLC's per-component values:
+    #  (a) a negated Gaussian integrand: Integrate(g, -g, reals) = -(Z E[g])
+    #  (b) a PLAIN batched Gaussian measure whose integer inputs are reduced in the same call
+    #      (no log-weights): sum_b Z_b E_b[.]  (linear space: the components are ADDED)
+    if not keep and all(f["ok"] for f in rec["full"]):
+        try:
+            for b_ix, bi in enumerate(bpoints):
+                full = rec["full"][b_ix]
+                sub = {n: int(i) for (n, _), i in zip(batch, bi)}
+                gb = g(**sub) if sub else g
+                r = Integrate(gb, -gb, rv)
+                want_e = -float(np.exp(_cv(full["logz"]))) * vals.scalar_to_float(full["equad"])
+                if isinstance(r, (Tensor, Number)) and not r.inputs:
+                    got = float(np.asarray(r.data))
+                    out.append(V(None, st="agree") if vals.close(got, want_e) else
+                               V("integrate_negated_gaussian_value", det={"batch": list(bi), "got": got, "want": want_e}))
+                else:
+                    out.append(V("integrate_neg:lazy", st="declined_lazy"))
+            if batch:
+                allv = frozenset(red) | frozenset(n for n, _ in batch)
+                zs_ = np.array([np.exp(_cv(f["logz"])) for f in rec["full"]])
+                want_q = float(np.sum(zs_ * np.array([vals.scalar_to_float(f["equad"]) for f in rec["full"]])))
+                try:
+                    r = Integrate(g, g, allv)
+                    if isinstance(r, (Tensor, Number)) and not r.inputs:
+                        got = float(np.asarray(r.data))
+                        out.append(V(None, st="agree") if vals.close(got, want_q) else
+                                   V("integrate_batched_gaussian_value", det={"got": got, "want": want_q}))
+                    else:
+                        out.append(V("integrate_batched:lazy", st="declined_lazy"))
+                except Exception as e:  # noqa  (KeyError on the pinned tree: a decline)
+                    out.append(V("integrate_batched:" + type(e).__name__, st="declined_error"))
+                off_ = 0
+                for n, d in rec["leaf"]["ins"]:
+                    if d["dt"] != 0:
+                        continue
+                    size = int(np.prod(d["sh"])) if d["sh"] else 1
+                    means = np.array([[vals.scalar_to_float(s_) for s_ in f["mean"][off_:off_ + size]] for f in rec["full"]])
+                    want_m = np.sum(zs_[:, None] * means, axis=0).reshape(tuple(d["sh"]))
+                    off_ += size
+                    r = Integrate(g, Variable(n, fbuild.dom_of(d)), allv)
+                    if isinstance(r, (Tensor, Number)) and not r.inputs:
+                        out.append(V(None, st="agree") if vals.close(np.asarray(r.data, dtype=float), want_m) else
+                                   V("integrate_batched_variable_value", det={"var": n, "got": np.asarray(r.data).tolist(), "want": want_m.tolist()}))
+                    else:
+                        out.append(V("integrate_batched_var:lazy", st="declined_lazy"))
+        except Exception as e:  # noqa
+            out.append(V("integrate_more:" + type(e).__name__, st="declined_error", det=str(e)[:100]))
     # mixture: reduce the integer inputs together with the real block; TLC gives the
     # per-component marginals, the harness only takes their log-sum-exp
     if batch and all_ok:
